@@ -267,6 +267,7 @@ func natLock(c *callCtx) []cont {
 	held := c.ex.load(c.st, a.A).T
 	c.ex.safetyCall(c.st, "lock", Not(held), c.site)
 	c.ex.store(c.st, a.A, scalar(TTrue, a.A.Ty))
+	c.ex.set(c.st, "G|ghost.lockOps|", Add(c.st.get("G|ghost.lockOps|", SInt), IntLit(1, SInt)))
 	c.ex.note("A-mutex: sync.Mutex is modelled as a ghost held flag; Lock requires it free (no self-deadlock), Unlock requires it held")
 	return c.ret(nil)
 }
